@@ -56,7 +56,7 @@ def case(g, tier, ci):
                 if r.random() < fp:
                     ops.append({"op": "el.addFlags", "id": eid, "ch": ch, "flags": [enc(r.choice([0, 1, 2, 3, 4, "", "H", "L", "T", "P"])) for _ in range(4)]})
         else:
-            ops += sg.element(eid, SR, N, order, raw_p=0.25, kinds=("ramp",), markers=True, flags_p=fp, nseg=(1, 3))
+            ops += sg.element(eid, SR, N, order, raw_p=0.6 if ci % 3 == 0 else 0.25, kinds=("ramp",), markers=True, flags_p=fp, nseg=(1, 3))
             for ch in chans:
                 amps[ch] = 4.5
         if r.random() < 0.3:
